@@ -10,6 +10,11 @@ CHECKS = {
    text="TLC checks exhaustively (tiny blocks, all histories of alloc/release/shrink/reset up to depth 5 quick / 7 thorough, padding and immediate-release variants) that the transcribed pool algorithm JitAllocImpl (bit vectors, search window, largest-unused cache, empty/dirty/incremental flags, cursor, block doubling) refines the contract JitAlloc.tla and keeps its structural invariants. The real allocator is bound to the same contract by trace validation: TLC-simulated histories scaled to real block sizes and long seeded random histories over all option sets x granularities 64/128/256 x block sizes are executed (ASan/UBSan build); every recorded call must be a contract step: spans non-null, granule aligned, >= request, disjoint in rx and rw view, contents intact at every step, rw/rx aliasing, query exact, foreign pointers refused, statistics exact, fill pattern on freed memory, released memory reusable without a new block, retention policy after release-all/reset, is_initialized.",
    note="Trusted: TLC, the contract spec, harness projection (public API, mincore, byte comparisons reported as booleans, order-preserving address compression). Large pages/hardened runtime not available in the sandbox. OutOfMemory from the OS is tolerated (counted).",
    technique="TLA+ contract + refinement of impl-shaped spec (TLC) + trace validation of recorded executions"),
+ "C11": dict(
+   category="model_checking", design_ref="DESIGN.md §4 C11, §8",
+   text="TLC explores all interleavings of the allocator's lock protocol with a non-atomic (scan/commit) critical section for 2 (quick) / 3 (thorough) threads: mutual exclusion, no overlap, exact counters, linearizable statistics, every call returns under weak fairness; the same model without the lock must violate NoOverlap (negative control). Real executions with 2/4/8/16 threads on one JitRuntime/JitAllocator are recorded with hook H3 (lock events emitted under the lock with a lock-ordered sequence number) and validated by TLC: lock protocol per thread (every successful alloc/release/shrink/query/statistics/add/release contains a critical section, only inside its own call, dense sequence numbers) and linearizability - the operations applied in lock order must be a behaviour of the sequential contract JitAlloc.tla with exactly the addresses/sizes/contents/statistics the threads observed. Independent generation: 8 threads assemble/compile x86-64/AArch64/Compiler programs concurrently; each output must equal the same program generated alone. The traced binary is also run under TSan as an environment.",
+   note="Trusted: TLC, JitAlloc.tla, the harness' merge of thread-ordered and lock-ordered events, hook H3. Memory-level races outside the hooks are visible only via the TSan environment (abort => truncated trace => rejection).",
+   technique="TLA+ interleaving model (TLC, safety + liveness + negative control) + trace validation of multi-threaded executions (lock-ordered linearization)"),
  "C19": dict(
    category="model_checking", design_ref="DESIGN.md §4 C19, §8",
    text="TLC proves (exhaustively, all add-histories up to depth 5/6 over a colliding alphabet) that the transcribed algorithm ConstPoolImpl refines the contract ConstPool.tla; the real ConstPool is bound to the same contract by trace validation: every model behaviour of depth 3, TLC-simulated longer behaviours and seeded random histories are executed on the real code (ASan/UBSan build) and each recorded trace must be a behaviour of the contract (aligned, stable, deduplicated offsets; image bytes exact; gaps zero; size/alignment cover everything).",
